@@ -63,6 +63,7 @@ fn c06_q_spsc_recv_woken_on_disconnect() {
     _ => assert!(false, "C04: recv did not report Disconnected after the sender went away"),
   }
   std::mem::forget(f);
+  kani::cover!(true, "scenario ran to its end");
 }
 
 /// A pending send on a full channel is woken by a receive and then completes; order is kept.
@@ -81,6 +82,7 @@ fn c06_q_spsc_send_woken_by_recv() {
   }
   f = None;
   assert!(rx.try_recv() == Ok(2), "C01: value of a completed send not delivered");
+  kani::cover!(true, "scenario ran to its end");
 }
 
 /// A pending send re-polled with a different waker: freeing space must wake the latest one.
@@ -97,6 +99,7 @@ fn c06_q_spsc_send_repoll_other_waker() {
   assert!(poll_slot(&mut f, 1).is_ready(), "C06: woken send did not complete");
   f = None;
   assert!(rx.try_recv() == Ok(2), "C01: value of a completed send not delivered");
+  kani::cover!(true, "scenario ran to its end");
 }
 
 /// Same for the batch future.
@@ -113,6 +116,7 @@ fn c06_q_spsc_send_batch_repoll_other_waker() {
   assert!(poll_slot(&mut f, 1).is_ready(), "C06: woken send_batch did not complete");
   f = None;
   assert!(rx.try_recv() == Ok(2), "C01: value of a completed send not delivered");
+  kani::cover!(true, "scenario ran to its end");
 }
 
 /// Cancelling a pending send: the value is not delivered later (no ghost delivery), the channel still works.
@@ -160,6 +164,7 @@ fn c06_q_spsc_cancel_pending_recv() {
   assert!(tx.try_send(8).is_ok(), "C03: try_send failed");
   assert!(wakes(1) >= 1, "C06: recv future created after a cancellation was not woken");
   std::mem::forget(g);
+  kani::cover!(true, "scenario ran to its end");
 }
 
 /// Stream::poll_next mixed with try_recv / a cancelled recv future: a Pending poll_next is always armed.
@@ -345,6 +350,7 @@ fn c04_q_spsc_async_pending_send_batch_rx_gone() {
     _ => assert!(false, "C04: send_batch did not report Closed after the receiver went away"),
   }
   std::mem::forget(f);
+  kani::cover!(true, "scenario ran to its end");
 }
 
 /// C09 (async): values inside cancelled futures and values left in the ring are dropped exactly once.
